@@ -348,8 +348,14 @@ def run(tier):
             if rc != 1 or not err.strip():
                 col.viol("exit-status:-e:error-not-reported", "bloc -e %s: exit %s stderr %r although the library reports %s" % (e, rc, err[:200], ex_step), det)
     interactive_pass(col, exe, env, INTERACTIVE)
-    # save / load
-    for name, lines in SAVELOAD:
+    # save / load: the hand-written sessions and the statement programs of the C12 corpus, one physical line each
+    from . import c12
+    sessions = list(SAVELOAD)
+    for i, prog in enumerate(c12.MISC):
+        if "return" in prog or "trace" in prog:
+            continue          # `return` ends the session before save
+        sessions.append(("misc%d" % i, [prog]))
+    for name, lines in sessions:
         path = os.path.join(d, "saved-%s.bloc" % name)
         if os.path.exists(path):
             os.unlink(path)
@@ -380,10 +386,10 @@ def run(tier):
         os.unlink(path)
     res = col.res
     res.samples = [{"program": PROGRAMS[1][1], "args": ["a b", "-x"], "mode": "file"}, {"expr": EXPRS[0]}, {"interactive": INTERACTIVE[4][1]}]
-    res.parts = [{"part": "programs x args x modes", "runs": len(jobs)}, {"part": "-e", "runs": len(EXPRS)}, {"part": "-i", "runs": len(INTERACTIVE)}, {"part": "save/load", "runs": len(SAVELOAD) * 3}]
+    res.parts = [{"part": "programs x args x modes", "runs": len(jobs)}, {"part": "-e", "runs": len(EXPRS)}, {"part": "-i", "runs": len(INTERACTIVE)}, {"part": "save/load", "runs": len(sessions) * 3}]
     rule = ("%d programs x %d argument vectors (all vectors of <=%d items over 7 strings) x {file, stdin, --out}; %d expressions through -e; %d interactive "
             "transcripts incl. errors inside loop headers and bodies followed by further statements; %d save/load sessions; each compared with the in-process "
-            "run of the same text through the library" % (len(PROGRAMS), len(argvecs), maxargs, len(EXPRS), len(INTERACTIVE), len(SAVELOAD)))
+            "run of the same text through the library" % (len(PROGRAMS), len(argvecs), maxargs, len(EXPRS), len(INTERACTIVE), len(sessions)))
 
     def nocheck(c, r):
         return [], True
